@@ -408,6 +408,7 @@ func main() {
 	flag.Parse()
 	thorough = *tier == "thorough"
 	sink = hx.NewSink()
+	hx.InflightOpen(*out)
 	r := hx.NewRng(*seed).Fork(prop)
 	switch prop {
 	case "C11":
@@ -421,6 +422,7 @@ func main() {
 		os.Exit(2)
 	}
 	hx.Must(sink.Write(*out))
+	hx.InflightDone(*out)
 }
 
 var _ = json.Valid
